@@ -9,13 +9,14 @@ package agent
 // are shorter than 2 GiB.
 //@ func WriteMessage
 //@   props C19 C05
+//@   requires w != nil
 //@   modifies nothing
 
 // The frame reader must not crash on any size the peer announces and any fragmentation of the
 // stream into reads (every behaviour of io.Reader: 0 <= n <= len(p) per call).
 //@ func ReadMessage
 //@   props C19 C05
-//@   requires buf != nil
+//@   requires buf != nil && r != nil
 //@   modifies *buf, elems(*buf)
 //@   loop 1
 //@     modifies elems(b)
